@@ -115,7 +115,7 @@ func mix64(v uint64) uint64 {
 }
 
 // genOps: the operations Gen draws from (repetition = weight; drawn uniformly, see Uniform).
-var genOps = []string{"bytes", "bytes", "payload", "payload", "size", "size", "count", "count", "truncate", "drop", "drop", "dup", "swap", "rename", "insert", "insert", "zero", "verflags", "verflags", "wrap", "largesize", "emptytable", "wrapw", "dupw"}
+var genOps = []string{"bytes", "bytes", "payload", "payload", "size", "size", "count", "count", "truncate", "drop", "drop", "dup", "swap", "rename", "insert", "insert", "zero", "verflags", "verflags", "wrap", "largesize", "emptytable", "wrapw", "dupw", "shrink", "shrink"}
 
 // Gen draws a list of 1..max mutations.
 func Gen(t *rapid.T, max int) []Mut {
@@ -149,6 +149,8 @@ func Gen(t *rapid.T, max int) []Mut {
 		case "zero":
 			m.Off = rapid.IntRange(0, 200).Draw(t, "off")
 			m.N = rapid.IntRange(1, 64).Draw(t, "n")
+		case "shrink": // the payload of a non-container box cut to Off bytes (parents fixed up)
+			m.Off = rapid.OneOf(rapid.IntRange(0, 12), rapid.IntRange(0, 64)).Draw(t, "keep")
 		case "emptytable": // entry count at payload offset Off set to 0 and the box cut right behind it (parents fixed up)
 			m.Off = rapid.SampledFrom([]int{4, 4, 4, 8, 12, 12, 16, 0}).Draw(t, "off")
 		case "verflags":
@@ -376,6 +378,19 @@ func Apply(seed []byte, muts []Mut) []byte {
 				binary.BigEndian.PutUint32(data[b.Start:], uint32(b.Size+delta))
 			}
 			binary.BigEndian.PutUint32(data[cut-4:], 0)
+			data = append(data[:cut], data[b.End():]...)
+		case "shrink":
+			if b == nil || b.ToEnd || b.PayloadStart()+m.Off >= b.End() || boxwalk.IsContainer(b.Type) {
+				continue
+			}
+			cut := b.PayloadStart() + m.Off
+			delta := cut - b.End()
+			fixParents(data, tree, b.Start+1, delta)
+			if b.Large {
+				binary.BigEndian.PutUint64(data[b.Start+8:], uint64(b.Size+delta))
+			} else {
+				binary.BigEndian.PutUint32(data[b.Start:], uint32(b.Size+delta))
+			}
 			data = append(data[:cut], data[b.End():]...)
 		case "verflags":
 			if b == nil || b.PayloadStart()+4 > b.End() {
